@@ -93,10 +93,10 @@ Proof.
 Qed.
 Print Assumptions C41_blocks_sized_aligned.
 
-(* the constants of every class the library instantiates (and of the two extra classes of the harness) meet the hypotheses,
+(* the constants of every class the library instantiates (and of the three extra classes of the harness) meet the hypotheses,
    and a request of N = 2^k <= 256 bytes is served by a class whose chunk is >= N and a multiple of N (so N-aligned) *)
 Theorem C41_class_constants :
-  forallb class_ok [4; 8; 16; 32; 64; 128; 256; 4096; 8192] = true /\
+  forallb class_ok [4; 8; 16; 32; 64; 128; 256; 2048; 4096; 8192] = true /\
   (forall k, 0 <= k <= 8 -> let n := 2 ^ k in
      n <= class_chunk n /\ class_chunk n mod n = 0 /\ In (class_chunk n) [4; 8; 16; 32; 64; 128; 256]) /\
   (forall a chunk n, 0 < n -> chunk mod n = 0 -> a mod chunk = 0 -> a mod n = 0).
